@@ -371,4 +371,115 @@ theorem appendText_f {p : Pool} (hI : Inv p) {o : Nat} (ho : alive p o) (hT : Te
   · exact Or.inl ⟨p2, h2, s2.mono (fun x h => Or.inl h), alive_of_objs_eq (s2.objs tmpD (fun h => hoD h.symm)) a1, a2⟩
   · exact Or.inr (h.inScope a1)
 
+/-! ### appending a code point -/
+
+/-- the statements of `operator+(const string&, char32_t)` that run with the concatenation buffer `tmpA` alive -/
+def concatCharBody (d : Nat) (la : List Nat) (ch : Nat) : M Unit := do
+  allocate tmpA (la.length + Utf.utf8Measure ch)
+  writeData tmpA 0 la
+  match Utf.writeUtf8 ch with
+  | some bytes => do writeData tmpA la.length bytes; ctorMove d tmpA
+  | none => throwE .unicodeError
+
+theorem concatCharBody_f {p1 : Pool} (hI : Inv p1) {d : Nat} (a1 : alive p1 tmpA) (hd : p1.objs d = none) (la : List Nat) (ch : Nat) :
+    (∃ p2, concatCharBody d la ch p1 = .ok () p2 ∧ Succ p1 p2 (fun x => x = d ∨ x = tmpA) ∧ alive p2 tmpA ∧ alive p2 d) ∨
+    (∃ e p2, concatCharBody d la ch p1 = .throw e p2 ∧ Succ p1 p2 (· = tmpA) ∧ alive p2 tmpA ∧ (e = .badAlloc → p1.failAt ≠ none)) := by
+  have hdA : d ≠ tmpA := fun h => by obtain ⟨b, hb⟩ := a1; rw [h, hb] at hd; cases hd
+  rcases stepF hI (.allocate tmpA (la.length + Utf.utf8Measure ch)) a1 with ⟨p2, h2, s2, us2, hus2, q2⟩ | ⟨p2, h2, f2, s2, q2⟩
+  · obtain ⟨b2, hb2⟩ := alive_of_view q2
+    have hsz2 : b2.size = la.length + Utf.utf8Measure ch := view_size hb2 q2
+    obtain ⟨p3, h3, s3, old3, _, q3⟩ := writeData_spec s2.inv (a := 0) (us := la) hb2 (by omega)
+    obtain ⟨b3, hb3⟩ := alive_of_view q3
+    have hsz3 : b3.size = la.length + Utf.utf8Measure ch := by rw [view_size hb3 q3, hsz2]
+    simp only [Op.run] at h2
+    cases hw : Utf.writeUtf8 ch with
+    | some bytes =>
+      have hbl : bytes.length = Utf.utf8Measure ch := writeUtf8_length hw
+      obtain ⟨p4, h4, s4, old4, _, q4⟩ := writeData_spec s3.inv (a := la.length) (us := bytes) hb3 (by omega)
+      have hd4 : p4.objs d = none := by rw [s4.objs d hdA, s3.objs d hdA, s2.objs d hdA]; exact hd
+      obtain ⟨p5, h5, s5, a5, b5⟩ := ctorMove_f s4.inv hd4 (alive_of_view q4)
+      left
+      refine ⟨p5, by simp [concatCharBody, h2, h3, hw, h4, h5], ?_, b5, a5⟩
+      exact Succ.trans' (((s2.trans s3).trans s4).mono (fun x h => Or.inr h)) s5 (fun x h => h) (fun x h => h)
+    | none =>
+      right
+      exact ⟨.unicodeError, p3, by simp [concatCharBody, h2, h3, hw], s2.trans s3, ⟨b3, hb3⟩, fun h => by cases h⟩
+  · simp only [Op.run] at h2
+    right
+    exact ⟨.badAlloc, p2, by simp [concatCharBody, h2], s2, alive_of_view q2, fun _ => f2⟩
+
+/-- `operator+(const string&, char32_t)` into the dead id `d` -/
+theorem concatCharInto_f {p : Pool} (hI : Inv p) {d l : Nat} {bl : Buf} (hd : p.objs d = none) (hl : p.objs l = some bl)
+    (hA : p.objs tmpA = none) (hdA : d ≠ tmpA) (ch : Nat) :
+    (∃ p', concatCharInto d l ch p = .ok () p' ∧ Succ p p' (· = d) ∧ alive p' d) ∨ ThrowUnch (concatCharInto d l ch p) p := by
+  have e : concatCharInto d l ch p = (ctorDefault tmpA >>= fun _ => withTemp tmpA (concatCharBody d (units p bl) ch)) p := by
+    simp only [concatCharInto, bind_apply, getObj_some hl, read_units hI hl]
+    rfl
+  rw [e]
+  refine scope_f (T := (· = d)) hA hdA (Or.inl (ctorDefault_f hI hA)) ?_
+  intro p1 s1 a1
+  have hd1 : p1.objs d = none := by rw [s1.objs d hdA]; exact hd
+  exact concatCharBody_f s1.inv a1 hd1 (units p bl) ch
+
+/-- `o += ch` -/
+theorem appendChar_f {p : Pool} (hI : Inv p) {o : Nat} (ho : alive p o) (hA : p.objs tmpA = none) (hB : p.objs tmpB = none)
+    (hoB : o ≠ tmpB) (ch : Nat) :
+    (∃ p', appendChar o ch p = .ok () p' ∧ Succ p p' (· = o) ∧ alive p' o) ∨ ThrowUnch (appendChar o ch p) p := by
+  obtain ⟨bo, hbo⟩ := ho
+  refine scope_f (mk := concatCharInto tmpB o ch) (body := assignMove o tmpB) (T := (· = o)) hB hoB ?_ ?_
+  · exact concatCharInto_f hI hB hbo hA tmpB_ne_tmpA ch
+  · intro p1 s1 a1
+    obtain ⟨p2, h2, s2, a2, b2⟩ := assignMove_f s1.inv (alive_of_objs_eq (s1.objs o hoB) ⟨bo, hbo⟩) a1
+    exact Or.inl ⟨p2, h2, s2, b2, a2⟩
+
+/-! ### values converted from another encoding -/
+
+theorem setConverted_f {p : Pool} (hI : Inv p) {o : Nat} (ho : alive p o) (hA : p.objs tmpA = none) (hoA : o ≠ tmpA)
+    {c : Outcome (List Nat)} (hc : ConvOk c) :
+    (∃ p', setConverted o c p = .ok () p' ∧ Succ p p' (· = o) ∧ alive p' o) ∨ ThrowUnch (setConverted o c p) p := by
+  rcases hc with ⟨v, rfl⟩ | rfl
+  · exact assignFromTemp_f hI ho hA hoA v
+  · exact Or.inr (throwUnch_refl (e := .unicodeError) hI rfl (by decide))
+
+/-- `o = ST::string(text in another encoding)` -/
+theorem assignConverted_f {p : Pool} (hI : Inv p) {o : Nat} (ho : alive p o) (hA : p.objs tmpA = none) (hB : p.objs tmpB = none)
+    (hoB : o ≠ tmpB) {c : Outcome (List Nat)} (hc : ConvOk c) :
+    (∃ p', assignConverted o c p = .ok () p' ∧ Succ p p' (· = o) ∧ alive p' o) ∨ ThrowUnch (assignConverted o c p) p := by
+  refine scope_f (mk := ctorDefault tmpB) (body := (do setConverted tmpB c; assignMove o tmpB)) (T := (· = o)) hB hoB
+    (Or.inl (ctorDefault_f hI hB)) ?_
+  intro p1 s1 a1
+  have hA1 : p1.objs tmpA = none := by rw [s1.objs tmpA tmpA_ne_tmpB]; exact hA
+  rcases setConverted_f s1.inv a1 hA1 tmpB_ne_tmpA hc with ⟨p2, h2, s2, a2⟩ | h
+  · have ho2 : alive p2 o := alive_of_objs_eq (s2.objs o hoB) (alive_of_objs_eq (s1.objs o hoB) ho)
+    obtain ⟨p3, h3, s3, a3, b3⟩ := assignMove_f s2.inv ho2 a2
+    exact Or.inl ⟨p3, by simp [h2, h3], Succ.trans' s2 s3 (fun x h => Or.inr h) (fun x h => h), b3, a3⟩
+  · obtain ⟨e, p2, h2, rest⟩ := h.inScope a1
+    exact Or.inr ⟨e, p2, by simp [h2], rest⟩
+
+/-! ### results of const operations -/
+
+/-- new objects holding computed values: all built, or `bad_alloc` while building one of them — the results built before
+    stay (the caller constructs them one after the other), nothing else is touched -/
+theorem deriveAll_f {p : Pool} (hI : Inv p) (ds : List (Nat × List Nat)) (hdead : ∀ d ∈ ds.map (·.1), p.objs d = none)
+    (hnd : (ds.map (·.1)).Nodup) :
+    (∃ p', deriveAll ds p = .ok () p' ∧ Succ p p' (fun x => x ∈ ds.map (·.1))) ∨
+    (∃ p', deriveAll ds p = .throw .badAlloc p' ∧ p.failAt ≠ none ∧ Succ p p' (fun x => x ∈ ds.map (·.1))) := by
+  induction ds generalizing p with
+  | nil => exact Or.inl ⟨p, rfl, hI.succ_refl _⟩
+  | cons dv rest ih =>
+    obtain ⟨d, v⟩ := dv
+    simp only [List.map_cons, List.nodup_cons] at hnd
+    rcases fresh_f hI (hdead d (by simp)) v with ⟨p1, h1, s1, _⟩ | ⟨p1, h1, f1, s1⟩
+    · have hdead1 : ∀ x ∈ rest.map (·.1), p1.objs x = none := by
+        intro x hx
+        rw [s1.objs x (by rintro rfl; exact hnd.1 hx)]
+        exact hdead x (by simp [hx])
+      have m1 : ∀ x, x = d → x ∈ ((d, v) :: rest).map (·.1) := fun x h => by simp [h]
+      have m2 : ∀ x, x ∈ rest.map (·.1) → x ∈ ((d, v) :: rest).map (·.1) := fun x h => by
+        simp only [List.map_cons, List.mem_cons]; exact Or.inr h
+      rcases ih s1.inv hdead1 hnd.2 with ⟨p2, h2, s2⟩ | ⟨p2, h2, f2, s2⟩
+      · exact Or.inl ⟨p2, by simp [deriveAll, h1, h2], Succ.trans' s1 s2 m1 m2⟩
+      · exact Or.inr ⟨p2, by simp [deriveAll, h1, h2], by rw [← s1.failAt]; exact f2, Succ.trans' s1 s2 m1 m2⟩
+    · exact Or.inr ⟨p1, by simp [deriveAll, h1], f1, s1.mono (fun _ h => h.elim)⟩
+
 end StVerif.StrPool
